@@ -48,8 +48,11 @@ def gen_fe(ctx, n, cats):
     while len(out) < n:
         N = r.choice([0, 0, 1, 2, 3, 4, 7])
         maxT = r.choice([0, 1, 2, 3, N, N + 1, N + 2, (1 << 31) - 1, 1 << 31, (1 << 32) - 1, 1 << 32 if False else 5])
-        nn = r.choice([0, 1, 2, N, N + 1, N + 2, r.randint(0, 40), r.randint(0, 300)])
-        out.append({'cat': r.choice(cats), 'n': nn, 'N': N, 'maxT': maxT, 'wait': r.choice([0, 1])})
+        nn = r.choice([0, 1, 2, N, N + 1, N + 2, r.randint(0, 40), r.randint(0, 150)])
+        c = {'cat': r.choice(cats), 'n': nn, 'N': N, 'maxT': maxT, 'wait': r.choice([0, 1])}
+        if in_dom(c) and sum(1 for x in out if in_dom(x)) >= 24:
+            c['wait'] = 1                       # every crashing case costs a process restart: keep their number bounded
+        out.append(c)
     return out
 
 
@@ -76,17 +79,17 @@ def run(ctx):
                       {'finding_key': KEY, 'cmd': 'echo "%s" | build/harness/h_parfor-*' % wl})
     ctx.phase('witness')
 
-    nreal = 400 if ctx.quick else 6000
-    nmock = 500 if ctx.quick else 8000
+    nreal = 250 if ctx.quick else 6000
+    nmock = 350 if ctx.quick else 8000
     creal = gen_fe(ctx, nreal, ['ra', 'bi'])
     cmock = gen_fe(ctx, nmock, ['ra', 'bi', 'fw'])
     for c in cmock:
         c['exec'] = ctx.rng.choice([0, 1, 2, 3]) if c['N'] <= 8 else 0
-    oreal = pf_common.run_harness(real, ['fe %s %d %d %d %d' % (c['cat'], c['n'], c['N'], c['maxT'], c['wait']) for c in creal])
-    omock = pf_common.run_harness(mock, ['feplan %s %d %d %d %d %d' % (c['cat'], c['n'], c['N'], c['maxT'], c['wait'], c['exec']) for c in cmock])
+    oreal = plan_common.run_lines(real, ['fe %s %d %d %d %d' % (c['cat'], c['n'], c['N'], c['maxT'], c['wait']) for c in creal])
+    omock = plan_common.run_lines(mock, ['feplan %s %d %d %d %d %d' % (c['cat'], c['n'], c['N'], c['maxT'], c['wait'], c['exec']) for c in cmock])
     # the crashing domain once more under NDEBUG (division by zero instead of the assertion)
     cnd = [c for c in cmock if in_dom(c)][:12]
-    ond = pf_common.run_harness(mock_nd, ['feplan %s %d %d %d %d %d' % (c['cat'], c['n'], c['N'], c['maxT'], c['wait'], c['exec']) for c in cnd])
+    ond = plan_common.run_lines(mock_nd, ['feplan %s %d %d %d %d %d' % (c['cat'], c['n'], c['N'], c['maxT'], c['wait'], c['exec']) for c in cnd])
     ctx.phase('run')
 
     t_real, t_mock = [], []
